@@ -757,8 +757,44 @@ func c04Extended(c *core.Ctx) {
 	c04Ext = 0
 }
 
+// c04Bytes: lexeme shapes the token alphabet does not have (unterminated and empty literals, lone escape
+// characters, bytes that are no token): all byte strings <= 3 (4 thorough) over the 26-byte lexer alphabet under
+// token interceptors (and one mixed configuration).
+func c04Bytes(c *core.Ctx) {
+	cfgs := []c04Cfg{{1, 0, "", false}, {2, 1, "P", true}}
+	n := 3
+	if c.Thorough() {
+		n = 4
+	}
+	A := lexAlphabet
+	for L := 1; L <= n; L++ {
+		gen.EachSeq(len(A), L, func(idx []int) bool {
+			if !c.Next() {
+				return true
+			}
+			if c.Tick() {
+				return false
+			}
+			b := make([]byte, L)
+			for i, x := range idx {
+				b[i] = A[x]
+			}
+			c.Inc("byte_inputs")
+			cf := cfgs
+			if L == 4 {
+				cf = cfgs[:1]
+			}
+			c04RunInput(c, string(b), cf, []Mode{{}}, L)
+			// the same bytes at the end of a well-formed prefix
+			c04RunInput(c, "let s = "+string(b), cf[:1], []Mode{{}}, L+3)
+			return true
+		})
+	}
+}
+
 func c04Run(c *core.Ctx) {
 	defer func() { c.Count("interceptor_log_events", c04Events) }()
+	c04Bytes(c)
 	c04Extended(c)
 	full := c04Cfgs(1)
 	if c.Thorough() {
@@ -891,7 +927,7 @@ func c04Replay(pl json.RawMessage) (string, []core.Violation) {
 func init() {
 	core.Register(&core.PropSpec{
 		ID: "C04", Level: "model_checking",
-		Rule:     "configuration x input product with an interceptor-log model (run on the built-in subset and, extended family, on the subset plus an infix operator registered at each level 1..12 with a prefix and a postfix operator, all token sequences <= 3 (4 thorough) over 10 lexemes in 4 frames, against the interceptor-free builder with the same registrations): configurations = token interceptor counts {1,2,8}, statement interceptor counts {1,2,3,8}, every sequence of pass-through/re-entrant expression interceptors of length <= 3 (4 thorough) plus 8-long ones, mixed sets, installed directly or through Install(plugin) (35 quick / 56 thorough; a reduced set of 4 re-entrance/order configurations on the largest universes); inputs = ALL token sequences <= 3 (4 thorough), valid or malformed, in space and LF layouts, every expression chain of depth <= 3 (as statement and as argument), statement families and nesting chains. Oracle per (input, configuration): tokens (lexer driven directly), tree dump with positions, Errors(), compact and pretty output identical to the interceptor-free run; each token interceptor entered exactly once per token request with Line/Column/CurrentChar on the first byte of the lexeme that request returns; statement/expression interceptor logs are complete runs 0..n-1 in installation order with one current token per run, properly nested; the step list of interceptor 0 is the same in every configuration; the entry token of a step is the leftmost token of the construct it returns; on error-free parses every statement of the tree and every operand outside the left spine was returned by exactly one step. states = distinct (input, mode) pairs, transitions = interceptor log events (token requests, statement and expression step entries/exits) checked against the log model",
+		Rule:     "configuration x input product with an interceptor-log model (also on all byte strings <= 3 (4 thorough) over the 26-byte lexer alphabet, alone and after a well-formed prefix, under token interceptors; run on the built-in subset and, extended family, on the subset plus an infix operator registered at each level 1..12 with a prefix and a postfix operator, all token sequences <= 3 (4 thorough) over 10 lexemes in 4 frames, against the interceptor-free builder with the same registrations): configurations = token interceptor counts {1,2,8}, statement interceptor counts {1,2,3,8}, every sequence of pass-through/re-entrant expression interceptors of length <= 3 (4 thorough) plus 8-long ones, mixed sets, installed directly or through Install(plugin) (35 quick / 56 thorough; a reduced set of 4 re-entrance/order configurations on the largest universes); inputs = ALL token sequences <= 3 (4 thorough), valid or malformed, in space and LF layouts, every expression chain of depth <= 3 (as statement and as argument), statement families and nesting chains. Oracle per (input, configuration): tokens (lexer driven directly), tree dump with positions, Errors(), compact and pretty output identical to the interceptor-free run; each token interceptor entered exactly once per token request with Line/Column/CurrentChar on the first byte of the lexeme that request returns; statement/expression interceptor logs are complete runs 0..n-1 in installation order with one current token per run, properly nested; the step list of interceptor 0 is the same in every configuration; the entry token of a step is the leftmost token of the construct it returns; on error-free parses every statement of the tree and every operand outside the left spine was returned by exactly one step. states = distinct (input, mode) pairs, transitions = interceptor log events (token requests, statement and expression step entries/exits) checked against the log model",
 		Assume:   []string{"a re-entrant interceptor ends the chain (it does not call next), so interceptors installed after it are not entered", "whether the property name after '.' is a parse step of its own is not constrained"},
 		QuickSec: 400, ThorSec: 1800, Run: c04Run, Replay: c04Replay,
 		Evals: "config_runs", Nontriv: "valid_inputs", States: "inputs", Trans: "interceptor_log_events",
